@@ -154,6 +154,11 @@ SopAndK(a, b) ==
 NegCubeSop(c) == SQT!SetToSeq({[p |-> {}, q |-> {v}] : v \in c.p} \cup {[p |-> {v}, q |-> {}] : v \in c.q})
 SopNotK(a) == SQT!FoldLeft(LAMBDA acc, c : SopAndK(acc, NegCubeSop(c)), <<CubeOne>>, a)
 
+\* From<&Lut> for Sop: the minterms of the true assignments, in increasing order of the assignment
+SopFromLutK(n, f) ==
+  LET ms == SelectSeq([k \in 1..(2^n) |-> k - 1], LAMBDA m : m \in f)
+  IN [k \in 1..Len(ms) |-> Minterm(n, AsSet(ms[k], n))]
+
 \* From<&Lut> for Esop: sweep the assignments upwards; a set bit emits the positive cube and
 \* toggles every strict superset
 EsopSweep(n, f) ==
